@@ -1,9 +1,10 @@
 use std::collections::HashMap;
 
 use cosmwasm_std::{
-    ensure, Addr, BankMsg, Coin, CosmosMsg, Deps, DepsMut, Env, MessageInfo, Response, Storage,
-    Uint128,
+    ensure, Addr, BankMsg, Coin, CosmosMsg, Deps, DepsMut, Env, MessageInfo, Order, Response,
+    Storage, Uint128,
 };
+use cw_storage_plus::Bound;
 
 use mantra_dex_std::coin::aggregate_coins;
 use mantra_dex_std::farm_manager::{EpochId, Farm, RewardsResponse};
@@ -419,21 +420,40 @@ pub fn sync_address_lp_weight_history(
     save_last_lp_weight: bool,
 ) -> Result<(), ContractError> {
     let (earliest_epoch_id, _) = get_earliest_address_lp_weight(storage, address, lp_denom)?;
-    let (latest_epoch_id, latest_address_lp_weight) =
+    let (latest_epoch_id, _) =
         get_latest_address_lp_weight(storage, address, lp_denom, current_epoch_id)?;
 
-    // remove previous entries
-    for epoch_id in earliest_epoch_id..=latest_epoch_id {
+    if !save_last_lp_weight {
+        // wipe the whole history
+        for epoch_id in earliest_epoch_id..=latest_epoch_id {
+            LP_WEIGHT_HISTORY.remove(storage, (address, lp_denom, epoch_id));
+        }
+
+        return Ok(());
+    }
+
+    // the weight in effect at current_epoch_id is the latest entry at or before it. Entries for
+    // later epochs, i.e. weight changes that take effect after the epoch being claimed, must
+    // neither be moved back to current_epoch_id nor be lost.
+    let weight_in_effect = LP_WEIGHT_HISTORY
+        .prefix((address, lp_denom))
+        .range(
+            storage,
+            None,
+            Some(Bound::inclusive(*current_epoch_id)),
+            Order::Descending,
+        )
+        .next()
+        .transpose()?;
+
+    // remove the entries that were already claimed, i.e. up to current_epoch_id
+    for epoch_id in earliest_epoch_id..=latest_epoch_id.min(*current_epoch_id) {
         LP_WEIGHT_HISTORY.remove(storage, (address, lp_denom, epoch_id));
     }
 
-    if save_last_lp_weight {
-        // save the latest weight for the current epoch
-        LP_WEIGHT_HISTORY.save(
-            storage,
-            (address, lp_denom, *current_epoch_id),
-            &latest_address_lp_weight,
-        )?;
+    if let Some((_, weight)) = weight_in_effect {
+        // save the weight in effect for the current epoch
+        LP_WEIGHT_HISTORY.save(storage, (address, lp_denom, *current_epoch_id), &weight)?;
     }
 
     Ok(())
